@@ -99,15 +99,15 @@ def _lake_env():
     return env
 
 
-def build_lean(timeout=1500) -> str:
-    """`lake build` under a file lock (checks may run concurrently). Returns the build log."""
+def build_lean(targets=(), timeout=1500) -> str:
+    """`lake build <targets>` under a file lock (checks may run concurrently). Returns the build log."""
     lock = LEAN / ".build.lock"
     with open(lock, "w") as fh:
         fcntl.flock(fh, fcntl.LOCK_EX)
         try:
             subprocess.run([sys.executable, str(VERIF / "tools" / "gen_lean_index.py")], check=True)
             p = subprocess.run(
-                ["lake", "build"], cwd=LEAN, capture_output=True, text=True, timeout=timeout, env=_lake_env()
+                ["lake", "build", *targets], cwd=LEAN, capture_output=True, text=True, timeout=timeout, env=_lake_env()
             )
         finally:
             fcntl.flock(fh, fcntl.LOCK_UN)
@@ -117,9 +117,9 @@ def build_lean(timeout=1500) -> str:
     return log
 
 
-def audit_axioms(theorems: list[str], extra_import: str = "JinnsProofs") -> dict[str, list[str]]:
+def audit_axioms(theorems: list[str], imports=("JinnsProofs",)) -> dict[str, list[str]]:
     """#print axioms for every theorem; returns name -> axioms (raises Infra on unknown theorem)."""
-    src = f"import {extra_import}\n" + "".join(f"#print axioms {t}\n" for t in theorems)
+    src = "".join(f"import {m}\n" for m in imports) + "".join(f"#print axioms {t}\n" for t in theorems)
     tmp = LEAN / f".audit_{os.getpid()}_{random.randrange(1 << 30)}.lean"
     tmp.write_text(src)
     try:
@@ -164,15 +164,37 @@ def strip_lean_comments(s: str) -> str:
     return "".join(out)
 
 
-def token_grep() -> list[str]:
-    hits = []
-    for f in sorted(LEAN.rglob("*.lean")):
-        if ".lake" in f.parts or f.name.startswith(".audit_"):
+def import_closure(modules) -> list[Path]:
+    """files of the lake project reachable from `modules` through `import Jinns…` lines"""
+    seen, todo, files = set(), list(modules), []
+    while todo:
+        m = todo.pop()
+        if m in seen:
             continue
+        seen.add(m)
+        f = LEAN / (m.replace(".", "/") + ".lean")
+        if not f.exists():
+            continue
+        files.append(f)
+        for mm in re.findall(r"^import\s+(Jinns[\w.]*)", f.read_text(), re.M):
+            todo.append(mm)
+    return sorted(files)
+
+
+def token_grep(modules=None) -> list[str]:
+    hits = []
+    if modules is None:
+        files = [f for f in sorted(LEAN.rglob("*.lean")) if ".lake" not in f.parts and not f.name.startswith(".audit_")]
+    else:
+        files = import_closure(modules)
+    for f in files:
         txt = strip_lean_comments(f.read_text())
         for m in FORBIDDEN.finditer(txt):
             hits.append(f"{f.relative_to(LEAN)}: {m.group(0).strip()}")
     return hits
+
+
+DRIVER = "Driver.lean"
 
 
 def lean_eval(reqs: list[dict], timeout=1800) -> list[dict]:
@@ -181,7 +203,7 @@ def lean_eval(reqs: list[dict], timeout=1800) -> list[dict]:
         return []
     data = "".join(json.dumps({**r, "id": i}) + "\n" for i, r in enumerate(reqs))
     p = subprocess.run(
-        ["lake", "env", "lean", "--run", "Driver.lean"],
+        ["lake", "env", "lean", "--run", DRIVER],
         cwd=LEAN, input=data, capture_output=True, text=True, timeout=timeout, env=_lake_env(),
     )
     if p.returncode != 0:
@@ -357,13 +379,17 @@ def run_check(prop: str, tier: str, seed: int, replay: str | None = None) -> int
     workers = getattr(mod, "WORKERS", {}).get(tier, workers)
 
     # ---------------- proof side
-    checker_cmds = ["cd /verif/lean && lake build"]
-    build_lean()
-    hits = token_grep()
+    global DRIVER
+    proof_mods = list(getattr(mod, "LEAN_MODULES", [f"JinnsProofs.{prop}"]))
+    driver_mods = list(getattr(mod, "DRIVER_MODULES", [f"JinnsDriver.{prop}"]))
+    DRIVER = f"drivers/Driver_{driver_mods[0].split('.')[-1]}.lean"
+    checker_cmds = ["cd /verif/lean && lake build " + " ".join(proof_mods + driver_mods)]
+    build_lean(proof_mods + driver_mods)
+    hits = token_grep(proof_mods + driver_mods)
     if hits:
         raise Infra("forbidden tokens in the Lean tree: " + "; ".join(hits))
     theorems = list(mod.THEOREMS)
-    axioms = audit_axioms(theorems)
+    axioms = audit_axioms(theorems, proof_mods)
     checker_cmds.append("lake env lean <#print axioms of every property theorem>")
     bad = {t: a for t, a in axioms.items() if not set(a) <= ALLOWED_AXIOMS}
     if bad:
